@@ -54,6 +54,9 @@ def main():
             mod.replay(ctx, res, recorded)
         else:
             mod.run(ctx, res)
+            import tapelib
+            # every source name an oracle of this run looked at: the Lean naming rule (Spec.Names) and the Python twins agree on it
+            tapelib.check_naming_spec(res, list(tapelib.NAMES_USED))
             if replay:
                 def norm(x):
                     return json.dumps(x, sort_keys=True, default=str)
